@@ -268,6 +268,15 @@ def mech_lengths(site):
         ops = site.extra["ops"]
         if all(_length_leaves(site.fn, o) for o in ops):
             return "sum of lengths (each at most isize::MAX, so the usize sum cannot overflow)"
+    if site.kind == "overflow" and site.detail.startswith("Add u64,u64"):
+        # `counter += v.len() as u64`: the counter is bounded by the number of elements that were materialised in memory one batch
+        # after the other - 2^64 of them are out of reach (the same argument as for `+= 1`)
+        for o in site.extra["ops"]:
+            if o.get("k") not in ("copy", "move"):
+                continue
+            for og in F.origins(site.fn, o, depth=6, through_calls=False):
+                if og.kind == "cast" and og.extra == "usize->u64" and og.place is not None and _length_leaves(site.fn, og.place):
+                    return "element counter (u64 += len() as u64: bounded by the number of elements ever held in memory)"
     return None
 
 
